@@ -149,7 +149,10 @@ type lgInterp struct {
 	lenient        bool
 	outsideLockers []string
 	interesting    map[*ast.FuncDecl]bool
-	noWait         int // inside the communication clauses of a select
+	noWait         int               // inside the communication clauses of a select
+	nodeFields     [][2]string       // (struct, kind) of every field holding path nodes
+	nodeAllocs     [][2]string       // (function, destination) of every pathNode construction
+	rootFields     map[string]string // field name -> struct, for *pathNode fields outside fidRef (tree roots)
 }
 
 const (
@@ -528,9 +531,10 @@ func (in *lgInterp) eval(x ast.Expr, env *lgEnv, fr *lgFrame) (*lgVal, error) {
 		if id, ok := e.X.(*ast.Ident); ok && env.get(id.Name) == nil && !fr.fileIdent[id.Name] {
 			// package-qualified name (atomic.X, linux.EINVAL, ...) or plain field of an unbound variable
 			switch e.Sel.Name {
-			case "pathNode", "parent", "file", "xattrOf", "opened", "pathTree":
+			case "pathNode", "parent", "file", "xattrOf", "opened":
 			default:
-				if _, guarded := lgGuardedMaps[e.Sel.Name]; !guarded {
+				_, guarded := lgGuardedMaps[e.Sel.Name]
+				if _, root := in.rootFields[e.Sel.Name]; !guarded && !root {
 					return other(), nil
 				}
 			}
@@ -542,8 +546,16 @@ func (in *lgInterp) eval(x ast.Expr, env *lgEnv, fr *lgFrame) (*lgVal, error) {
 		switch e.Sel.Name {
 		case "pathNode":
 			return &lgVal{kind: "node", node: lgToRef(v).pathNode(), text: types.ExprString(x)}, nil
-		case "pathTree":
-			return &lgVal{kind: "node", node: &lgNode{kind: "tree"}}, nil
+		}
+		if owner, root := in.rootFields[e.Sel.Name]; root {
+			// the root of a path tree: THE tree only if it hangs off the Server (one tree per server, shared by
+			// all its connections); a root kept anywhere else is a different node for every holder
+			if owner == "Server" {
+				return &lgVal{kind: "node", node: &lgNode{kind: "tree"}}, nil
+			}
+			return &lgVal{kind: "node", node: &lgNode{kind: "var", name: "root-of:" + owner}}, nil
+		}
+		switch e.Sel.Name {
 		case "parent":
 			return &lgVal{kind: "ref", ref: &lgRef{kind: "parent", sub: lgToRef(v)}}, nil
 		case "xattrOf":
@@ -980,6 +992,14 @@ func (in *lgInterp) call(ce *ast.CallExpr, env *lgEnv, fr *lgFrame) (*lgVal, err
 		args, err := in.evalArgs(ce.Args, env, fr)
 		if err != nil {
 			return nil, err
+		}
+		if (m == "IncRef" || m == "TryIncRef") && !in.lenient && len(ce.Args) == 0 {
+			// acquisition of a fidRef reference; weak: the fidRef was found in a path node's childRefs
+			if recv.kind == "ref" {
+				in.site(ce.Pos(), fmt.Sprintf("(KRef %s %s)", CoqString(m), lgBool(recv.ref.kind == "member")))
+			} else if recv.kind != "other" || !strings.HasSuffix(fr.recvType, "fidRef") {
+				in.site(ce.Pos(), fmt.Sprintf("(KRef %s false)", CoqString(m)))
+			}
 		}
 		if in.fileMethods[m] && !in.lenient {
 			if recv.kind == "file" {
